@@ -10,3 +10,7 @@ check("C01", "exploration", "Hypothesis value trees + round-trip / idempotence o
       "Generated message values over the kitchen-sink corpus are encoded, decoded and compared through public observers (values, oneof selection, None-ness, nested presence), with ==, and by re-encoding; failures are collected per root-cause signature so the search continues behind known findings.",
       "Samples the value space of a fixed but systematic schema corpus compiled by the current plugin; snapshots trust betterproto's public observers.",
       "DESIGN.md 3/C01")
+check("C02", "exploration", "Hypothesis + differential oracle (google.protobuf) + spec-level legal re-encoder",
+      "Generated values are encoded by betterproto and decoded by the reference, encoded by the reference and decoded by betterproto, and the reference bytes are rewritten by an independent spec-level re-encoder (permutation, packing toggle, chunk split, varint padding, overridden duplicates, unknown fields) before betterproto decodes them; the reference's own decode of each re-encoding is the soundness guard.",
+      "Trusts google.protobuf 7.36.1 and vf/wire.py; repeated occurrences of singular message fields are out of the stated domain and not generated.",
+      "DESIGN.md 3/C02")
